@@ -13,7 +13,7 @@ A, B, V, D = ("ref", "a"), ("ref", "b"), ("ref", "v"), ("ref", "d")
 
 OPS1 = ("dedup", "sort total", "proj -b", "proj -v", "proj a", "sel a>k", "calc d", "sel false", "proj none")
 OPS_TOP = ("dedup", "sort total", "proj -b", "proj -a", "sel a>k", "calc e", "slice s:e", "proj none", "sort a")
-D3 = ("sort total", "slice s:e", "dedup", "proj -b", "sel a>k", "calc d", "sort -a")
+D3 = ("sort total", "slice s:e", "slice s:", "dedup", "proj -b", "sel a>k", "calc d", "sort -a")
 
 
 def leaves_in(node, acc=None):
